@@ -96,7 +96,9 @@ def gen_structured(rng, nprng, count, maxn, tier):
                 scale = 10 ** rng.choice([0, 0, 0, -3, 3, -6, 6, rng.uniform(-6, 6)])
                 colratio = 10 ** rng.choice([0, 0, 1, 2])
             else:
-                cond = 10 ** rng.choice([0, 0.3, 0.5, 1, 1, 1.5, 2])
+                cond = 10 ** rng.choice([0, 0.3, 0.5, 1, 1, 1.5, 2, 2.2, 2.4])
+                if cond > 100 and pi == 0 and rng.random() < 0.5:
+                    n = rng.randint(300, 500)     # many rows: row-count dependent cut-offs show only here
                 scale = 10 ** rng.choice([0, 0, 0, -2, 2, -4, 4, rng.uniform(-5, 5)])
                 colratio = 10 ** rng.choice([0, 0, 0.5])
             if cond * colratio >= 1e6:
@@ -297,9 +299,13 @@ def tolerances(rec):
     eps = EPS[rec["ty"]]
     cM = cJ * cJ
     STATS["max_condJ"] = max(STATS["max_condJ"], cJ if math.isfinite(cJ) else 0.0)
-    if not math.isfinite(cM) or 1000 * eps * cM > 0.05:
+    # an algorithm that forms and inverts J^T J cannot do better than ~eps*cond(J)^2; beyond 50*eps*cond^2 > 0.5 the
+    # precision cannot resolve the problem at all (single precision: cond(J) above ~290) and the case is only counted.
+    # Below that the estimate IS judged, with a margin of 20x (residual) / 50x (forward) over that bound: a solver that
+    # drops a resolvable singular direction is off by O(1) and must not hide behind the tolerance.
+    if not math.isfinite(cM) or 50 * eps * cM > 0.5:
         return None
-    return max(BASE[rec["ty"]], 100 * eps * cM), max(BASE[rec["ty"]], 1000 * eps * cM), cJ
+    return max(BASE[rec["ty"]], 20 * eps * cM), max(BASE[rec["ty"]], 5 * eps * cM), cJ
 
 
 # ------------------------------------------------------------------------------------------ exact arithmetic
@@ -519,8 +525,8 @@ CHECK = {
                 "extraction (ExtrOcamlBasic), ocaml/numf.ml, ocaml/drv_C07.ml", "harness/C07.cpp, python oracle (fractions.Fraction) in checks/C07.py",
                 "numpy SVD used only to compute condition numbers for tolerances"],
     "assumptions": ["theorems are over the reals; rounding is observed by the correspondence run, not proved",
-                    "'vanishes to rounding' is read as |J^T(Jx-Y)| <= max(1e-9|1e-4, 100 eps cond(J)^2) (|J|^2|x|+|J||Y|): the explicit-inverse "
-                    "algorithm cannot do better; estimates with 1000 eps cond(J)^2 > 0.05 (single precision beyond cond(J)~20) are counted, not judged",
+                    "'vanishes to rounding' is read as |J^T(Jx-Y)| <= max(1e-9|1e-4, 20 eps cond(J)^2) (|J|^2|x|+|J||Y|): the explicit-inverse "
+                    "algorithm cannot do better; estimates with 50 eps cond(J)^2 > 0.5 (single precision beyond cond(J)~290) are counted, not judged",
                     "contents of the buffers after a reallocation are unspecified (model: explicit fill value; harness never reads them)"],
     "run_timeout": 900,
     "manifest": {
